@@ -1,0 +1,15 @@
+//go:build verif
+
+package stdlib
+
+import "github.com/go-python/gpython/py"
+
+// VerifYield, when set, is called at every shared-state access of the
+// context life cycle (verification hook; compiled in only with -tags verif).
+var VerifYield func(ctx py.Context, point string)
+
+func verifYield(c *context, point string) {
+	if VerifYield != nil {
+		VerifYield(c, point)
+	}
+}
